@@ -960,6 +960,8 @@ class PyHarness(object):
                                 break
                             if p.intent not in ("in", "inout"):
                                 continue
+                            if p.attrs.get("implied") or p.attrs.get("hidden"):
+                                continue        # computed by the wrapper, not a position of the call (judged with its array)
                             if j == w.hole:
                                 # a parameter skipped by keyword is passed explicitly: it must carry its declared default
                                 if v[0] == "scalar" and not is_concrete(v[1]):
@@ -1352,6 +1354,7 @@ def native_call(w):
                'void fill2(int nrow, int ncol, double *out) { printf("LIB %d %d\\n", nrow, ncol); for (int i = 0; i < nrow * (ncol - 1); i++) out[i] = i; }',
                'int *getRow(int n) { static int row[4096]; printf("LIB %d\\n", n); return row; }',
                'int bump(int *v, int n) { printf("LIB"); for (int i = 0; i < n; i++) { printf(" %d", v[i]); v[i] += 1; } printf(" | %d\\n", n); return 6; }',
+               'int sumdef(const int *x, int n, int scale) { printf("LIB"); for (int i = 0; i < n; i++) printf(" %d", x[i]); printf(" | %d %d\\n", n, scale); return 29; }',
                'size_t findPos(int k) { printf("LIB %d\\n", k); return (size_t) -1; }',
                'int Tally::total() { printf("LIB\\n"); return 41; }',
                'int Tally::scaled(int k) { printf("LIB %d\\n", k); return 42; }',
@@ -1367,7 +1370,7 @@ def native_call(w):
             f.write("\n".join(lib) + "\n")
         so = os.path.join(tmp, "pyl.so")
         src = [os.path.join(tmp, n) for n in b.files if n.endswith(".cpp")] + [os.path.join(tmp, "lib.cpp")]
-        p = subprocess.run(["g++", "-shared", "-fPIC", "-O0", "-w", "-I", inc, "-I", tmp] + src + ["-o", so],
+        p = subprocess.run(["g++", "-shared", "-fPIC", "-O0", "-w", "-ftrivial-auto-var-init=pattern", "-I", inc, "-I", tmp] + src + ["-o", so],
                            stdout=subprocess.PIPE, stderr=subprocess.STDOUT, universal_newlines=True)
         if p.returncode != 0:
             return None
